@@ -152,13 +152,7 @@ var vc16pVocab = []vc16pTok{
 	{":", vc16pOther}, {"+", vc16pOther}, {"-", vc16pOther}, {"=", vc16pOther}, {">", vc16pOther}, {"<", vc16pOther}, {"~", vc16pOther}, {"^", vc16pOther},
 }
 
-var vc16pVocabSmall = []vc16pTok{
-	{"a", vc16pWord}, {"1", vc16pWord}, {"AND", vc16pWord}, {"NOT", vc16pWord}, {"TO", vc16pWord},
-	{`"q r"`, vc16pOther}, {"/re/", vc16pOther},
-	{"(", vc16pOther}, {")", vc16pOther}, {"[", vc16pOther}, {"]", vc16pOther}, {":", vc16pOther},
-}
-
-// smaller still, for one more token of length in the thorough tier
+// reduced vocabulary for one more token of length
 var vc16pVocabTiny = []vc16pTok{
 	{"a", vc16pWord}, {"1", vc16pWord}, {"AND", vc16pWord}, {"TO", vc16pWord},
 	{`"q r"`, vc16pOther}, {"(", vc16pOther}, {")", vc16pOther}, {"[", vc16pOther}, {"]", vc16pOther}, {":", vc16pOther},
@@ -536,11 +530,10 @@ func TestVerifStandin_C16P(t *testing.T) {
 	rep.ByCategory = map[string]int{}
 	rep.Failures = nil
 
-	fullLen, nRandom := 2, 1000
-	next := vc16pVocabSmall
+	fullLen, nRandom := 2, 600
+	next := vc16pVocabTiny
 	if tier == "thorough" {
 		fullLen, nRandom = 3, 10000
-		next = vc16pVocabTiny
 	}
 
 	workers := runtime.NumCPU()
